@@ -181,6 +181,14 @@ def literal_corpus(tier, seed):
         grp = punct[k:k + 4]
         defs.append(corpus.mk("bpunct%d" % k, [corpus.tok(bytes([0x61, b]), icase=True, prio=9) for b in grp] + [corpus.rx(b"[a-z]", prio=1)], utf8=False, tags=["literal"]))
         defs.append(corpus.mk("spunct%d" % k, [corpus.tok("a" + chr(b), icase=(b % 2 == 0), prio=9) for b in grp] + [corpus.rx("[a-z]", prio=1)], tags=["literal"]))
+    # ignore(case) literals made of characters that fold although they are neither lowercase nor uppercase (titlecase letters,
+    # the combining iota), alone and next to uncased and cased characters; byte-string literals around the ASCII boundary
+    for k, w in enumerate(["ǅ", "ǅ1", "1ǲ", "ᾈ", "ῼ-", "ǈa", "ͅ", "ǋǅ", "ß1", "ſ", "K", "İ", "ı", "ς", "Ⓐ", "ⓐ", "ǆ", "Ǆ"]):
+        defs.append(corpus.mk("fold%d" % k, [corpus.tok(w, icase=True, prio=9), corpus.rx("[a-z0-9]+", prio=1)], tags=["literal"]))
+    for k, w in enumerate([b"\x7f", b"\x80", b"\x81", b"k\x80", b"\x80K", b"\x7f\x80\x81", b"\xc2\x80", b"\xbf", b"\xc0", b"\xff\x80"]):
+        defs.append(corpus.mk("bfold%d" % k, [corpus.tok(w, icase=True, prio=9), corpus.rx(b"[a-z0-9]+", prio=1)], utf8=False, tags=["literal"]))
+        defs.append(corpus.mk("bplain%d" % k, [corpus.tok(w, prio=9), corpus.rx(b"[a-z0-9]+", prio=1)], utf8=False, tags=["literal"]))
+        defs.append(corpus.mk("brx%d" % k, [corpus.rx(list(w) + list(b"+x"), prio=9), corpus.rx(b"[a-z0-9]+", prio=1)], utf8=False, tags=["literal"]))
     # regex / skip with ignore(case)
     for k, p in enumerate(["ab+c", "[a-f]x", "straße", "ǆ+", "k|σ", "\\x41b"]):
         defs.append(corpus.mk("icrx%d" % k, [corpus.rx(p, icase=True, prio=5), corpus.rx("[a-zA-Z]+", prio=1)], tags=["literal"]))
@@ -719,15 +727,22 @@ def check_C19(tier, seed, rest):
     t0 = time.time()
     import front
     r = front.derive_run(tier, seed)
-    v = r["findings"]
-    cov = {"evaluations": r["run"] + r["rustc_cases"], "distinct_nontrivial": r["run"], "samples": r["samples"],
+    g = front.greedy_run(tier, seed)
+    h = front.huge_run()
+    v = r["findings"] + g["findings"] + h["findings"]
+    cov = {"evaluations": r["run"] + r["rustc_cases"] + g["cases"] + len(h["cases"]), "distinct_nontrivial": r["run"] + g["cases"], "samples": r["samples"] + g["samples"][:3],
            "enumerated_by_tlc": r["enumerated"], "library_runs": r["run"], "accepted": r["accepted"], "rejected": r["rejected"], "rustc_proc_macro_cases": r["rustc_cases"],
+           "greedy_dot_patterns": g["cases"], "greedy_dot_patterns_that_must_be_rejected": g["greedy_cases"], "greedy_dot_agree": g["agree"], "huge_repetition_cases": h["cases"],
            "exhaustive": tier == "thorough",
-           "rule": "Derive.tla enumerates the product variant shape x attribute form x enum-level form x second variant (18 200 inputs) with the verdict the specification assigns; "
+           "rule": "Derive.tla enumerates the product variant shape x attribute form x enum-level form x second variant with the verdict the specification assigns; "
                    "every rendered source is distinct and non-trivial (an enum with at least one variant); quick = all single-feature deviations from a valid baseline + a seeded sample of 2 500, thorough = all; "
-                   "each is run through logos_codegen::generate under catch_unwind, and a sample covering every feature value through rustc as a real proc macro on the stable toolchain"}
+                   "each is run through logos_codegen::generate under catch_unwind (output that does not parse as Rust items counts like a panic), and a sample covering every feature value through rustc as a real proc macro on the stable toolchain. "
+                   "Greedy-dot rule: Regex.tla (MODE = dot) enumerates every AST up to depth 2 over {a, [ab], ., (?s:.), [^\\n]} with cat / alt / greedy and lazy repetition / capture groups and assigns GreedyAll; "
+                   "every pattern goes through the derive as #[regex] (a fifth also as skip, a fifth with allow_greedy): the greedy-dot diagnostic must be present exactly when GreedyAll holds. "
+                   "Huge repetition counts (default priority beyond the machine word): one process each under a 3 GiB address-space limit; a panic is a violation, reaching the limit is recorded"}
     finish("C19", tier, seed, "exploration", cov, v, t0, ["the enumerated grammar is the input space (arbitrary token soup inside attributes is not generated)",
-                                                         "accepted definitions are shown to work by the C01 replay of the corpus definitions, here only by compiling"])
+                                                         "accepted definitions are shown to work by the C01 replay of the corpus definitions, here only by compiling",
+                                                         "termination is decided on patterns whose automata are small; for counted repetitions in the billions the derive needs more memory than the sandbox has and only panic-freedom up to that point is observed"])
 
 
 def check_C18(tier, seed, rest):
@@ -748,7 +763,7 @@ def check_C17(tier, seed, rest):
     r = front.cli_run(tier, seed)
     cov = {"evaluations": r["strip_cases"] + r["history_steps"], "distinct_nontrivial": r["strip_cases"] + r["histories"], "samples": r["samples"],
            "tlc_states": r["tlc"]["distinct"], "strip_cases": r["strip_cases"], "file_histories": r["histories"], "file_history_steps": r["history_steps"],
-           "rule": "Cli.tla part 1: enum sources = derive lists (every sequence of 1..3 distinct entries of {Debug, Logos, Clone, serde::Serialize, logos::Logos}, with/without trailing comma, optional second derive attribute) "
+           "rule": "Cli.tla part 1: enum sources = derive lists (every sequence of 1..3 distinct entries of {Debug, Logos, Clone, serde::Serialize, logos::Logos, ::logos::Logos, ::core::fmt::Debug}, separated by comma-space or by a bare comma, with/without trailing comma, optional second derive attribute) "
                    "x other attributes (doc+repr before, cfg_attr after, allow between logos attributes) x 0..2 #[logos] attributes, over a fixed body with variant docs, cfg, two regex attributes on one variant and a field attribute; "
                    "the real binary's stdout must parse as Rust, its first item must equal the expected stripped enum (derive lists compared as lists of paths) and the rest must equal generate()'s output. "
                    "Part 2: every history of write/check/tamper/crlf/delete up to the bound, exit status and file state compared after every step; distinct = distinct sources + distinct histories"}
@@ -760,9 +775,11 @@ def check_C09(tier, seed, rest):
     import front
     r = front.prio_run(tier, seed)
     cov = {"evaluations": r["cases"], "distinct_nontrivial": r["cases"], "samples": r["samples"], "tlc_states": r["tlc"]["distinct"], "asts": r["asts"], "agree": r["agree"],
+           "asts_bytes_mode": r["asts_bytes"], "asts_bytes_mode_enumerated": r["asts_bytes_enumerated"],
            "rule": "Regex.tla enumerates every AST up to depth 2 over atoms {a, ab, e', e'a, [ab], [ae'], [abe'], $} with cat / alt / rep (8 bound pairs) and checks LiteralNotBeaten (Matches(r,w) => Complexity(r) <= 2*bytes(w), words up to 3 chars) on each; "
                    "every rendered pattern (distinct text) is run through the real derive as #[regex], and a seventh of them also as skip, with ignore(case) and with an explicit priority; literal tokens incl. multi-byte, metacharacter and byte-string ones; "
-                   "quick = all small ASTs + a seeded sample, thorough = all 7 552"}
+                   "MODE = bytes: the same over {a, e', E2 82 (a truncated sequence), FF, E2 82 a, e' FF, a E2 82, [a FF], $} for utf8 = false definitions, where a literal run counts its characters when it is valid UTF-8 and its bytes otherwise "
+                   "(alternations whose branches start with the same literal symbol are outside the fragment); quick = all small ASTs + a seeded sample, thorough = all"}
     finish("C09", tier, seed, "exploration", cov, r["findings"], t0, ["the rendering AST -> regex text is the harness's", "that a literal then wins or an ambiguity is reported follows from C01/C08 on the corpus"])
 
 
@@ -792,7 +809,7 @@ def check_C13(tier, seed, rest):
           "definition": f["src"], "expected": f["expected"], "got": f["got"]} for f in r["findings"]]
     cov = {"states": r["tlc"]["distinct"], "transitions": r["tlc"]["states"], "traces_validated_against_impl": r["runs"], "samples": r["samples"],
            "behaviours": r["behaviours"], "configurations": r["cfgs"], "definitions": r["defs"], "max_input_chars": r["maxlen"],
-           "rule": "Callbacks.tla: 8 definitions attaching every callback return type of the documented table (unit: (), bool, Skip, Result<Skip,E>, Filter<()>; value: T, Option, Result, Filter, FilterResult; "
-                   "any-token: Self, Result<Self,E>, Filter<Self>, FilterResult<Self,E>; skip callbacks: (), Skip, Result<(),E>, Result<Skip,E>; bump inside a callback; error callback), decisions = len % 4; "
+           "rule": "Callbacks.tla: 10 definitions attaching every callback return type of the documented table (unit: (), bool, Skip, Result<Skip,E>, Filter<()>; value: T, Option, Result, Filter, FilterResult; "
+                   "any-token: Self, Result<Self,E>, Filter<Self>, FilterResult<Self,E>; skip callbacks: (), Skip, Result<(),E>, Result<Skip,E>; bump inside a callback; error callback; inline closures whose body starts with a (..), {..} or [..] group and continues after it), decisions = len % 4; "
                    "every input up to max_input_chars characters; expected items and expected callback invocation list replayed on 4 builds; SkipTransparent checked by TLC on the twin pair"}
     finish("C13", tier, seed, "model_checking", cov, v, t0, ["callback decisions depend on the match length only", "reference lexer as in C01"])
